@@ -203,7 +203,7 @@ def main():
         if base.get("only_points"):
             continue
         ops = list(range(0, base["ops"]))
-        for j in (ops if thorough and len(ops) < 60 else sorted(rng.sample(ops, min(len(ops), 40 if thorough else 8)))):
+        for j in (ops if (thorough and len(ops) < 60) or (base.get("all_points") and len(ops) < 80) else sorted(rng.sample(ops, min(len(ops), 40 if thorough else 8)))):
             r = run(definition, data, seed, tmpd, crash_at_op=j, child=child)
             d = {"scenario": kind, "definition": definition, "child_definition": child, "input": data, "worker_seed": seed, "crash": "inside a handler, at broker operation %d" % j,
                  "without_crash": base["final"], "with_crash": r["final"], "status": r["status"], "requests_per_correlation_id": r["counts"], "error": r.get("error"),
